@@ -165,6 +165,9 @@ func (m *Dense) UnmarshalBinary(data []byte) error {
 	if rows < 0 || cols < 0 {
 		return errBadSize
 	}
+	if cols != 0 && rows > maxLen/cols {
+		return errTooBig
+	}
 	size := rows * cols
 	if size == 0 {
 		return ErrZeroLength
@@ -220,6 +223,9 @@ func (m *Dense) UnmarshalBinaryFrom(r io.Reader) (int, error) {
 	}
 	if rows < 0 || cols < 0 {
 		return n, errBadSize
+	}
+	if cols != 0 && rows > maxLen/cols {
+		return n, errTooBig
 	}
 	size := rows * cols
 	if size == 0 {
